@@ -62,7 +62,7 @@ def constants(case, events):
     return dict(pids=["p%d" % i for i in range(1, nsp + 1)], maxw=maxw, kinds=kinds, qsize=2 * maxw + 1,
                 maxcrash=sum(1 for e in events if e["w"] == "E"), maxcancel=sum(1 for e in events if e["w"] == "C"), maxtimeout=sum(1 for e in events if e["o"] == "timeout" or e["a"] == "cq.r.poll0") + 1,
                 hastimeout=scn["exec"].get("timeout") is not None, fop=fop,
-                switches={k: sw[k] for k in ("WakeAfterSpawn", "KeepRefs", "SafeFail", "CancelWakes", "JoinWatches", "CloseReaderOnKill")})
+                switches={k: sw[k] for k in ("WakeAfterSpawn", "KeepRefs", "SafeFail", "CancelWakes", "JoinWatches", "CloseReaderOnKill", "ExitChecked")})
 
 
 def project(decisions, obs=(), scn=None):
